@@ -303,4 +303,45 @@ theorem registered_in_callback_survives (l : LocalWaker) (w : WakerId) (hw : l.w
 example : (LocalWaker.stepRe { waker := some 5 } .wake) = ({ waker := some 5 }, [.woke (some 5), .registered false]) := by decide
 example : (LocalWaker.stepRe { waker := some 2 } .wake) = ({ waker := none }, [.woke (some 2)]) := by decide
 
+/-- **`register` stores the new waker before the displaced one goes** (`replace`): a `wake` made while
+the displaced waker is being dropped — by its destructor — reaches the waker that is being registered. -/
+theorem displaced_drop_wakes_new_waker (l : LocalWaker) (w : WakerId) (hd : l.waker = some 6) :
+    (LocalWaker.stepLine l (.register w)).2.take 2 = [.registered true, .woke (some w)] := by
+  simp [LocalWaker.stepLine, hd, LocalWaker.stepRe, LocalWaker.step, LocalWaker.register, LocalWaker.wake, LocalWaker.take]
+
+example : LocalWaker.stepLine { waker := some 6 } (.register 2) = ({ waker := none }, [.registered true, .woke (some 2)]) := by decide
+example : LocalWaker.stepLine { waker := some 6 } (.register 4) = ({ waker := some 1 }, [.registered true, .woke (some 4), .registered false]) := by decide
+example : LocalWaker.stepLine { waker := some 3 } (.register 6) = ({ waker := some 6 }, [.registered true]) := by decide
+
+/-- Through the counter: the parked task that owns guard `g` (waker `100 + g`) is displaced by the next
+task answered "unavailable" with exactly `cap` guards alive; its guard is released while the new waker
+`w` is already registered, so **the task just answered "unavailable" is the one woken**. -/
+theorem displaced_guard_release_wakes_new_asker (cap : Nat) (ops : List Op) (s s' : Sys) (os0 os : List Obs)
+    (h g : Nat) (w : WakerId) (hr : run (init cap) ops = some (s, os0)) (hh : s.hasHandle h = true)
+    (hheld : s.ctr.task.waker = some (100 + g)) (hg : g ∈ s.guards) (hfull : s.guards.length = cap)
+    (hw : guardWaker w = false) (hs : stepLine s (.available h w) = some (s', os)) :
+    ∃ saw rest, os = .avail false :: .dropped (some w) saw :: rest := by
+  obtain ⟨h1, h2, _, _⟩ := rel_reach hr
+  have hnlt : ¬ s.ctr.count < s.ctr.capacity := by omega
+  have hstep : step s (.available h w) =
+      some ({ s with ctr := { s.ctr with task := { waker := some w } } }, .avail false) := by
+    simp only [step, hh, if_true, available_eq, hnlt, if_false]
+  have hre : stepRe s (.available h w) =
+      some ({ s with ctr := { s.ctr with task := { waker := some w } } }, [.avail false]) := by
+    simp only [stepRe, hstep, Sys.callback]
+  have hgw : guardWaker (100 + g) = true := by simp [guardWaker]
+  simp only [stepLine, hw, Bool.false_and, Bool.false_eq_true, if_false, hre, hheld, hgw, if_true] at hs
+  have hsub : 100 + g - 100 = g := by omega
+  rw [hsub] at hs
+  have hdec : ({ count := s.ctr.count, capacity := s.ctr.capacity, task := { waker := some w } } : Counter).dec.2 = some w := by
+    rw [dec_eq]; simp [h1, h2, hfull]
+  simp only [stepRe, step, hg, if_true, hdec] at hs
+  simp only [Option.some.injEq, Prod.mk.injEq] at hs
+  obtain ⟨_, ho⟩ := hs
+  exact ⟨_, _, by rw [← ho]; rfl⟩
+
+example : ((run (init 1) [.acquire 0, .available 0 100]).bind (fun q => stepLine q.1 (.available 0 2))).map (·.2) =
+    some [.avail false, .dropped (some 2) none] := by decide
+example : ((run (init 1) [.acquire 0, .available 0 100]).bind (fun q => stepLine q.1 (.drop 0))) = none := by decide
+
 end ActixNet.C17
